@@ -182,6 +182,27 @@ def tiny_and_symbolic_folds(tier):
     return out
 
 
+def failing_variable_free_with_rules(tier):
+    """a variable-free sub-tree that cannot be folded into a constant (its evaluation fails) but to which rewrite rules still apply, placed
+    directly under every kind of parent next to a variable: the rewriter must neither stop early nor loop on it"""
+    bad = [["Logarithm", const(0)], ["Logarithm", const(-1), 2], ["Reciprocal", const(0)], ["NthRoot", const(-4), 2], ["Power", const(0), const(0)],
+           ["Divide", const(1), const(0)]]
+    wraps = [lambda b: ["Negation", ["Negation", b]], lambda b: ["Reciprocal", ["Reciprocal", b]], lambda b: ["NthPower", ["NthPower", b, 2], 3],
+             lambda b: ["Negation", ["Multiply", const(0), b]], lambda b: ["Exponential", ["Logarithm", b]], lambda b: ["NthPower", b, 1],
+             lambda b: ["Add", b, const(0)], lambda b: ["Multiply", const(1), ["Negation", ["Negation", b]]], lambda b: ["Minus", b, b]]
+    parents = [lambda f: ["Add", X, f], lambda f: ["Multiply", X, f], lambda f: ["Multiply", ["Sine", X], f, Y], lambda f: ["Add", f, X, f],
+               lambda f: ["Minus", X, f], lambda f: ["Divide", f, X], lambda f: ["Power", X, f], lambda f: ["Sine", ["Add", X, f]],
+               lambda f: ["Add", ["Multiply", Y, f], X]]
+    out = []
+    for bi, b in enumerate(bad):
+        for wi, w in enumerate(wraps):
+            for pi, par in enumerate(parents):
+                if tier == "quick" and (bi + wi + pi) % 3 and not (bi == 0 and pi < 3):
+                    continue
+                out.append(par(w(b)))
+    return out
+
+
 def f4(tier):
     return dedup(param_pairs(tier) + unary_over_unary(tier) + power_patterns(tier) + nary_patterns(tier) + variable_free(tier)
-                 + unary_over_nary_with_constants(tier) + tiny_and_symbolic_folds(tier))
+                 + unary_over_nary_with_constants(tier) + tiny_and_symbolic_folds(tier) + failing_variable_free_with_rules(tier))
